@@ -38,6 +38,7 @@ TIES = {  # tie lemma -> the Go function(s) it ties (lean/GeomV/C18/Tie.lean)
     "tie_processRelationNoCopy": "processRelationNoCopy",
 }
 SEQ = ["bigStep_step", "finishW_st", "runPass_seq"]
+DUP = ["C18_duplicates", "C18_duplicates_schedule_dependent", "closedDB_sound", "closed_of_closedD", "closedD_of_closed"]
 SRC = ["C18_provided_keeps_src", "C18_check_src"]
 
 
@@ -131,7 +132,7 @@ def post(chk, pairs, stats):
 
 CFG = {
     "id": "C18",
-    "lean_modules": ["GeomV.C18.Proofs", "GeomV.C18.ProofsObs", "GeomV.C18.Seq", "GeomV.C18.Tie", "GeomV.C18.TieFilter"],
+    "lean_modules": ["GeomV.C18.Proofs", "GeomV.C18.ProofsObs", "GeomV.C18.Seq", "GeomV.C18.Dup", "GeomV.C18.Tie", "GeomV.C18.TieFilter"],
     "lean_dirs": ["C18"],
     "exe": "geomv_c18",
     "go_cmd": "c18",
@@ -149,7 +150,7 @@ CFG = {
         "specKeep_bounds", "specKeep_tags", "specKeep_all", "C18_provided_keeps",
         "C18_need_exact", "C18_roots_spec", "C18_observers_schedule_independent", "C18_filter_observers",
         "C18_geom_no_dropped_point", "C18_cancel_no_partial_result",
-    ] + list(TIES) + SRC + SEQ],
+    ] + list(TIES) + SRC + SEQ + DUP],
     "trusted_base": [
         "Lean 4.33.0 kernel; axioms of every theorem printed by #print axioms must be within {propext, Classical.choice, Quot.sound}",
         "model lean/GeomV/C18/Model.lean is tied to /repo/encoding/osm/{extract,keep,check}.go by the correspondence run on every check: "
